@@ -32,6 +32,23 @@ MANAGER_ONESTEP = dict(harness='c05_manager_steps', name='c05_manager_onestep',
                        params={'quick': {'steps': 1, 'arbitrary_start': 1}, 'thorough': {'steps': 2, 'arbitrary_start': 1}},
                        conform={'quick': 60, 'thorough': 500}, nvals=40)
 
+MANAGER_LOOP = dict(harness='c05_manager_loop',
+                    covers=['c05l.dial.accepted', 'c05l.dial.refused', 'c05l.open.opened', 'c05l.open.failed', 'c05l.dial.established', 'c05l.dial.failed',
+                            'c05l.inbound.admitted', 'c05l.inbound.established', 'c05l.closed', 'c05l.user.established', 'c05l.user.closed',
+                            'c05l.user.dial-failure', 'c05l.user.open-failure', 'c05l.accept-rollback', 'c05l.negotiate-refused'],
+                    min_paths=1000, split={'quick': 5, 'thorough': 6}, params={'quick': {'steps': 3}, 'thorough': {'steps': 4}},
+                    conform={'quick': 60, 'thorough': 500}, nvals=30)
+
+# histories that start with a dial by address to each peer in flight (reaches races between concurrent dials quickly)
+MANAGER_LOOP_RACE = dict(MANAGER_LOOP, name='c05_manager_loop_race', covers=['c05l.dial.established', 'c05l.user.established', 'c05l.rejected.outbound-limit'],
+                         min_paths=200, split={'quick': 4, 'thorough': 5},
+                         params={'quick': {'steps': 2, 'warm_dials': 2}, 'thorough': {'steps': 3, 'warm_dials': 2}})
+# C06 / C07 use the same harness for their own checks; the "never silent" ledger belongs to C05
+MANAGER_LOOP_NO_LEDGER = dict(MANAGER_LOOP, name='c05_manager_loop_events',
+                              params={'quick': {'steps': 3, 'silence_check': 0}, 'thorough': {'steps': 4, 'silence_check': 0}})
+MANAGER_LOOP_RACE_NO_LEDGER = dict(MANAGER_LOOP_RACE, name='c05_manager_loop_race_events',
+                                   params={'quick': {'steps': 2, 'warm_dials': 2, 'silence_check': 0}, 'thorough': {'steps': 3, 'warm_dials': 2, 'silence_check': 0}})
+
 ADDRESS_SHAPES = dict(harness='c05_address_shapes',
                       covers=['shape.dial_address.accepted', 'shape.dial_address.refused', 'shape.known.stored', 'shape.known.refused'],
                       min_paths=5000, split=4, conform={'quick': 100, 'thorough': 2000}, nvals=8)
@@ -48,6 +65,8 @@ prop('C05',
               conform={'quick': 60, 'thorough': 500}, nvals=8),
          MANAGER_STEPS,
          MANAGER_ONESTEP,
+         MANAGER_LOOP,
+         MANAGER_LOOP_RACE,
          ADDRESS_SHAPES,
      ],
      bounds={'peers': 1, 'connection ids': '64-bit symbolic', 'limits': 'None/1/2 per direction', 'steps': 1},
@@ -90,6 +109,8 @@ prop('C15',
               conform={'quick': 60, 'thorough': 500}, nvals=40),
          dict(harness='c15_find_node_step', covers=['c15s.send', 'c15s.wait', 'c15s.succeeded', 'c15s.failed'], min_paths=1000, split=5,
               conform={'quick': 100, 'thorough': 1000}, nvals=24),
+         dict(harness='c15_response_step', covers=['c15x.find-node', 'c15x.get-record', 'c15x.get-providers'], min_paths=1000, split=6,
+              params={'quick': {'active_peers': 3}, 'thorough': {'active_peers': 4}}, conform={'quick': 100, 'thorough': 1000}, nvals=24),
          dict(harness='c15_get_record', covers=['c15r.send', 'c15r.response', 'c15r.peer-failure', 'c15r.succeeded', 'c15r.failed', 'c15r.wait'],
               min_paths=1000, split={'quick': 8, 'thorough': 9}, params={'quick': {'steps': 3}, 'thorough': {'steps': 5}},
               conform={'quick': 60, 'thorough': 500}, nvals=40),
@@ -123,11 +144,16 @@ prop('C17',
      units=[
          dict(harness='c17_store_records', covers=['c17.put', 'c17.get'], min_paths=500, split=6,
               params={'quick': {'steps': 3}, 'thorough': {'steps': 4}}, conform={'quick': 60, 'thorough': 500}, nvals=30),
-         dict(harness='c17_store_providers', covers=['c17p.put', 'c17p.get', 'c17p.expire'], min_paths=1000, split=5,
-              params={'quick': {'steps': 3}, 'thorough': {'steps': 3, 'all_address_counts': 1}}, conform={'quick': 60, 'thorough': 500}, nvals=30),
+         dict(harness='c17_store_providers', covers=['c17p.put', 'c17p.put-local', 'c17p.get', 'c17p.expire'], min_paths=1000, split=5,
+              params={'quick': {'steps': 2}, 'thorough': {'steps': 3, 'all_address_counts': 1}}, conform={'quick': 60, 'thorough': 500}, nvals=30),
+         dict(harness='c17_store_providers', name='c17_store_providers_onestep',
+              covers=['c17p.arbitrary-start', 'c17p.put', 'c17p.put-local', 'c17p.remove-local', 'c17p.get', 'c17p.expire'], min_paths=1000, split=6,
+              params={'quick': {'steps': 1, 'arbitrary_start': 1}, 'thorough': {'steps': 2, 'arbitrary_start': 1, 'all_address_counts': 1}},
+              conform={'quick': 100, 'thorough': 500}, nvals=40),
      ],
      bounds={'ops': 'quick 3, thorough 4', 'keys': 2, 'max_records': '0..2', 'value length': '<= 64 symbolic',
-             'provider keys bound': '0..2', 'providers per key bound': '1..2', 'addresses per provider bound': '0..2', 'providers': 3},
+             'provider keys bound': '0..2', 'providers per key bound': '1..2 (histories), 1 or 3 (one-step)', 'addresses per provider bound': '0..2', 'providers': '3 remote + the local node',
+             'one-step pre-state': 'one key with any distance-sorted subset of the 4 providers within the bound, uniformly fresh or expired'},
      outside=['provider refresh timer stream'],
      )
 
@@ -178,7 +204,7 @@ prop('C10',
 prop('C06',
      explanation='Bounded model checking of the real ConnectionLimits / PeerState / transport-manager handlers against a ledger of live '
                  'connections: every k-step history from a fresh manager and every single step from an arbitrary invariant-satisfying state.',
-     units=[MANAGER_STEPS, MANAGER_ONESTEP],
+     units=[MANAGER_STEPS, MANAGER_ONESTEP, MANAGER_LOOP_NO_LEDGER, MANAGER_LOOP_RACE_NO_LEDGER],
      bounds={'peers': 2, 'limits': 'inbound None/0/1, outbound None/1/2', 'history steps': 'quick 3, thorough 4', 'one-step': 'quick 1, thorough 2 steps from an arbitrary state',
              'ghost connections of unmodelled peers': 'inbound 0..1, outbound 0..2'},
      outside=['accept_pending/reject_pending socket handling inside the transports', 'TransportManager::next glue (replicated in the harness)'],
@@ -278,7 +304,7 @@ CLOSED_REPORT = dict(harness='c07_closed_report', covers=['c07.completed', 'c07.
 prop('C07',
      explanation='Symbolic execution of the real ProtocolSet::report_connection_closed (a lowered async fn over FuturesUnordered and tokio channels) '
                  'for every combination of running / shut-down / busy protocols and every order in which the concurrent sends complete.',
-     units=[CLOSED_REPORT],
+     units=[CLOSED_REPORT, MANAGER_LOOP_NO_LEDGER, MANAGER_LOOP_RACE_NO_LEDGER],
      assumptions=['tokio mpsc channels are bounded FIFOs; dropping a Receiver closes the channel; FuturesUnordered yields ready futures in a solver-chosen order',
                   'one poll of the report future (a blocked report is examined at the point where it blocks)'],
      bounds={'protocols': 3, 'protocol states': 'running / receiver dropped / channel full', 'polls': 1},
@@ -308,9 +334,9 @@ prop('C02',
                  'fragmentation, with the cipher replaced by a length/tag/nonce-faithful stub: the bytes read equal the bytes written.',
      units=[
          dict(harness='c02_noise_stream', name='c02_noise_stream_small', covers=['c02.read', 'c02.delivered', 'c02.read-pending'], min_paths=100, split=5,
-              params={'quick': {'io_budget': 3}, 'thorough': {'io_budget': 5}}, conform={'quick': 100, 'thorough': 500}, nvals=20),
+              params={'quick': {'write_budget': 1, 'read_budget': 2}, 'thorough': {'write_budget': 2, 'read_budget': 3}}, conform={'quick': 100, 'thorough': 500}, nvals=20),
          dict(harness='c02_noise_stream', name='c02_noise_stream_frames', covers=['c02.read', 'c02.delivered'], min_paths=50, split=4,
-              params={'quick': {'io_budget': 1, 'big_frames': 1}, 'thorough': {'io_budget': 3, 'big_frames': 1}}, conform={'quick': 20, 'thorough': 100}, nvals=20,
+              params={'quick': {'write_budget': 1, 'read_budget': 0, 'big_frames': 1}, 'thorough': {'write_budget': 2, 'read_budget': 1, 'big_frames': 1}}, conform={'quick': 20, 'thorough': 100}, nvals=20,
               time_cap={'quick': 1500, 'thorough': 14000}),
          dict(harness='c02_noise_attacks', covers=['c02a.data', 'c02a.error'], min_paths=8, split=0, conform={'quick': 50, 'thorough': 200}, nvals=4),
      ],
@@ -318,7 +344,7 @@ prop('C02',
                   'integrity of the payload bytes against tampering is the AEAD\'s guarantee and not modelled',
                   'the two cipher states come from a completed handshake (natively: a real in-memory Noise XX handshake)'],
      bounds={'write sizes': '1, 2, 300 (+0/1/300) and 65519, 65520, 65521, 65536, 131040 (+0/1)', 'reader buffers': '1, 7, 300 / 16384, 65520, 70000',
-             'read-ahead frames': '1..2', 'write buffer frames': '1..2', 'carrier': 'io_budget scripted answers (Pending / 1 byte / all), then ideal'},
+             'read-ahead frames': '1..2', 'write buffer frames': '1..2', 'carrier': 'write_budget scripted answers to the writer (Pending / 1 byte / all; flush Pending) and read_budget scripted answers to the reader when data is available (Pending / 1 byte / 2 bytes / all), then ideal'},
      outside=['detection of altered *payload* bytes (AEAD guarantee; the attack unit damages only length prefixes and tags, truncates, drops, replays, reorders)', 'the handshake itself (C01)',
               'payload contents other than the fixed position pattern'],
      )
